@@ -79,6 +79,11 @@ func isAccumulator(v ssa.Value, seen map[ssa.Value]bool) (bool, string, []*ssa.C
 	return ok, why, apps
 }
 
+type hmacInstall struct {
+	ssa.Instruction
+	Value ssa.Value
+}
+
 func checkInstalledHMACConfigured(c *Ctx, rule string) {
 	p := c.P
 	n := 0
@@ -88,13 +93,33 @@ func checkInstalledHMACConfigured(c *Ctx, rule string) {
 		}
 		for _, b := range fn.Blocks {
 			for _, ins := range b.Instrs {
-				mu, ok := ins.(*ssa.MapUpdate)
-				if !ok || len(p.InlinedFrom(mu)) > 0 {
-					continue // (an install expanded from a helper is decided in that helper's own view)
-				}
-				mt, ok := mu.Map.Type().Underlying().(*types.Map)
-				if !ok || namedName(mt.Elem()) != "HMACAuth" {
+				// an install site: the authenticator is put into the per-route table — a map of authenticators, or the
+				// authenticator member of a per-route record that is (a copy of) an element of a map of records
+				var mu hmacInstall
+				switch x := ins.(type) {
+				case *ssa.MapUpdate:
+					mt, ok := x.Map.Type().Underlying().(*types.Map)
+					if !ok || namedName(mt.Elem()) != "HMACAuth" {
+						continue
+					}
+					mu = hmacInstall{x, x.Value}
+				case *ssa.Store:
+					fa, ok := x.Addr.(*ssa.FieldAddr)
+					if !ok || namedName(x.Val.Type()) != "HMACAuth" {
+						continue
+					}
+					if _, isPtr := x.Val.Type().Underlying().(*types.Pointer); !isPtr {
+						continue
+					}
+					if namedPkgPath(fa.X.Type()) != modPath+"/internal/app" {
+						continue
+					}
+					mu = hmacInstall{x, x.Val}
+				default:
 					continue
+				}
+				if len(p.InlinedFrom(mu.Instruction)) > 0 {
+					continue // (an install expanded from a helper is decided in that helper's own view)
 				}
 				if isNilConst(mu.Value) {
 					continue
